@@ -56,3 +56,95 @@ pub fn ref_script_fee<S: Src>(s: &mut S) {
         Err(_) => assert!(exact.to_u64().is_none()),
     }
 }
+
+// ---------------------------------------------------------------- C20: deposits / refunds
+fn ckh(b: u8) -> Ed25519KeyHash { Ed25519KeyHash::from([b; 28]) }
+fn ccred(b: u8) -> Credential { Credential::from_keyhash(&ckh(b)) }
+fn cdrep(b: u8) -> DRep { DRep::new_key_hash(&ckh(b)) }
+
+/// certificate of shape `sh` (same numbering as mir2smt/obl/c20.py) and the ledger's (deposit, refund) for it
+pub fn c20_cert(sh: u8, coin: u64, key: u64, pool: u64, b: u8) -> (Certificate, u128, u128) {
+    let c = BigNum::from(coin);
+    let (k, p, cc) = (key as u128, pool as u128, coin as u128);
+    match sh {
+        0 => (Certificate::new_stake_registration(&StakeRegistration::new(&ccred(b))), k, 0),
+        1 => (Certificate::new_stake_registration(&StakeRegistration::new_with_explicit_deposit(&ccred(b), &c)), cc, 0),
+        2 => (Certificate::new_stake_deregistration(&StakeDeregistration::new(&ccred(b))), 0, k),
+        3 => (Certificate::new_stake_deregistration(&StakeDeregistration::new_with_explicit_refund(&ccred(b), &c)), 0, cc),
+        4 => (Certificate::new_stake_delegation(&StakeDelegation::new(&ccred(b), &ckh(b))), 0, 0),
+        5 => {
+            let pp = PoolParams::new(&ckh(b), &VRFKeyHash::from([b; 32]), &BigNum::from(1u64), &BigNum::from(2u64),
+                &UnitInterval::new(&BigNum::from(1u64), &BigNum::from(2u64)), &RewardAddress::new(0, &ccred(b)),
+                &Ed25519KeyHashes::new(), &Relays::new(), None);
+            (Certificate::new_pool_registration(&PoolRegistration::new(&pp)), p, 0)
+        }
+        6 => (Certificate::new_pool_retirement(&PoolRetirement::new(&ckh(b), 5)), 0, 0),
+        7 => (Certificate::new_genesis_key_delegation(&GenesisKeyDelegation::new(&GenesisHash::from([b; 28]), &GenesisDelegateHash::from([b; 28]), &VRFKeyHash::from([b; 32]))), 0, 0),
+        8 => (Certificate::new_move_instantaneous_rewards_cert(&MoveInstantaneousRewardsCert::new(&MoveInstantaneousReward::new_to_other_pot(MIRPot::Reserves, &c))), 0, 0),
+        9 => (Certificate::new_committee_hot_auth(&CommitteeHotAuth::new(&ccred(b), &ccred(b.wrapping_add(1)))), 0, 0),
+        10 => (Certificate::new_committee_cold_resign(&CommitteeColdResign::new(&ccred(b))), 0, 0),
+        11 => (Certificate::new_drep_deregistration(&DRepDeregistration::new(&ccred(b), &c)), 0, cc),
+        12 => (Certificate::new_drep_registration(&DRepRegistration::new(&ccred(b), &c)), cc, 0),
+        13 => (Certificate::new_drep_update(&DRepUpdate::new(&ccred(b))), 0, 0),
+        14 => (Certificate::new_stake_and_vote_delegation(&StakeAndVoteDelegation::new(&ccred(b), &ckh(b), &cdrep(b))), 0, 0),
+        15 => (Certificate::new_stake_registration_and_delegation(&StakeRegistrationAndDelegation::new(&ccred(b), &ckh(b), &c)), cc, 0),
+        16 => (Certificate::new_stake_vote_registration_and_delegation(&StakeVoteRegistrationAndDelegation::new(&ccred(b), &ckh(b), &cdrep(b), &c)), cc, 0),
+        17 => (Certificate::new_vote_delegation(&VoteDelegation::new(&ccred(b), &cdrep(b))), 0, 0),
+        _ => (Certificate::new_vote_registration_and_delegation(&VoteRegistrationAndDelegation::new(&ccred(b), &cdrep(b), &c)), cc, 0),
+    }
+}
+
+fn proposal(dep: u64, b: u8) -> VotingProposal {
+    let anchor = Anchor::new(&URL::new("https://x.y".to_string()).unwrap(), &AnchorDataHash::from([b; 32]));
+    VotingProposal::new(&GovernanceAction::new_info_action(&InfoAction::new()), &anchor, &RewardAddress::new(0, &ccred(b)), &BigNum::from(dep))
+}
+
+/// draws: key, pool, n, (shape, coin)*n, nwd, wd*nwd, nprop, prop*nprop
+pub fn c20_tables<S: Src>(s: &mut S) {
+    let (key, pool) = (s.u64(), s.u64());
+    let n = s.u8();
+    s.assume(n <= 4);
+    let mut certs = Certificates::new();
+    let (mut dep, mut refund) = (0u128, 0u128);
+    for j in 0..n {
+        let sh = s.u8();
+        s.assume(sh <= 18);
+        let coin = s.u64();
+        let (c, d, r) = c20_cert(sh, coin, key, pool, 10 + j);
+        certs.add(&c);
+        dep += d; refund += r;
+    }
+    let nwd = s.u8();
+    s.assume(nwd <= 3);
+    let mut wds = Withdrawals::new();
+    let mut wd_sum = 0u128;
+    for j in 0..nwd {
+        let w = s.u64();
+        wds.insert(&RewardAddress::new(0, &ccred(100 + j)), &BigNum::from(w));
+        wd_sum += w as u128;
+    }
+    let nprop = s.u8();
+    s.assume(nprop <= 2);
+    let mut props = VotingProposals::new();
+    let mut prop_sum = 0u128;
+    for j in 0..nprop {
+        let d = s.u64();
+        props.add(&proposal(d, 50 + j));
+        prop_sum += d as u128;
+    }
+    let mut body = TransactionBody::new_tx_body(&TransactionInputs::new(), &TransactionOutputs::new(), &BigNum::from(0u64));
+    body.set_certs(&certs);
+    if nwd > 0 { body.set_withdrawals(&wds); }
+    if nprop > 0 { body.set_voting_proposals(&props); }
+    let (k, p) = (BigNum::from(key), BigNum::from(pool));
+    let max = u64::MAX as u128;
+    // stand-alone helpers vs ledger table
+    match get_deposit(&body, &p, &k) {
+        Ok(v) => assert!(u64::from(v) as u128 == dep + prop_sum, "get_deposit differs from the ledger's deposit"),
+        Err(_) => assert!(dep + prop_sum > max, "get_deposit errs although the sum fits"),
+    }
+    match get_implicit_input(&body, &p, &k) {
+        Ok(v) => assert!(u64::from(v.coin()) as u128 == refund + wd_sum && v.multiasset().is_none(), "get_implicit_input differs from withdrawals + in-transaction refunds"),
+        Err(_) => assert!(refund + wd_sum > max, "get_implicit_input errs although the sum fits"),
+    }
+}
